@@ -181,6 +181,7 @@ type Policy struct {
 	SweepA    int    `json:"sweep_a,omitempty"` // sweep: run A to its I-th yield, then B to completion, then A
 	SweepB    int    `json:"sweep_b,omitempty"`
 	SweepI    int    `json:"sweep_i,omitempty"`
+	SweepJ    int    `json:"sweep_j,omitempty"` // > 0: B in turn is preempted at its J-th yield, A finishes, then B
 }
 
 const (
@@ -774,6 +775,9 @@ func (s *Sim) pick(cur int) int {
 			a, b := s.pol.SweepA, s.pol.SweepB
 			if s.phase == 0 && cur == a && s.yields[a] >= s.pol.SweepI {
 				s.phase = 1
+			}
+			if s.phase == 1 && s.pol.SweepJ > 0 && cur == b && s.yields[b] >= s.pol.SweepJ {
+				s.phase = 2
 			}
 			first, second := a, b
 			if s.phase == 1 {
